@@ -120,7 +120,13 @@ extern "C" int h_merge(void) {
       if (doc.HasParseError()) verif_fail("C19: ParseSchema reports an error on a valid text");
       smerge(expect, xdoc, expect.GetAllocator());
       if (!same(doc, expect)) verif_fail("C19: document after ParseSchema differs from the schema merge the property states");
-      if (twice == 2) {
+      if (twice == 3) {
+        // document Swap after ParseSchema: the other document dies first; the swapped-in value must stay intact (and nothing may dangle)
+        Doc* d2 = new Doc(); d2->Parse(et, en); d2->ParseSchema(xt, xn);
+        Doc keep; keep.Swap(*d2);
+        delete d2;
+        if (!same(keep, expect)) verif_fail("C13: value obtained by Swap after ParseSchema changed when the other document was destroyed");
+      } else if (twice == 2) {
         // a second, DIFFERENT and shorter text that touches none of the values built by the first call
         static const char kSecond[] = "{\"zz\":7}";
         Doc x2; x2.Parse(kSecond, sizeof(kSecond) - 1);
